@@ -101,8 +101,92 @@ func PbChunks(cs []Chunk) []*filer_pb.FileChunk {
 	return out
 }
 
+// ---------- the two wire encodings of a chunk reference ----------
+// A FileChunk names its blob by the string field file_id ("3,0b00000001"), by the structured field
+// fid {volume_id, file_key, cookie}, or by both.  All three forms occur: upload results carry the string
+// only, LookupDirectoryEntry answers carry both, ListEntries answers of stores with native prefix listing
+// and metadata events carry the structured field only.
+const (
+	EncBoth byte = iota // file_id string and fid object
+	EncFid              // fid object only (file_id == "")
+	EncStr              // file_id string only (fid == nil)
+)
+
+func PbChunkEnc(c Chunk, enc byte) *filer_pb.FileChunk {
+	pc := PbChunk(c)
+	switch enc {
+	case EncFid:
+		pc.FileId = ""
+	case EncStr:
+		pc.Fid = nil
+	}
+	return pc
+}
+
+func encAt(encs []byte, i int) byte {
+	if i < len(encs) {
+		return encs[i]
+	}
+	return EncBoth
+}
+
+func PbChunksEnc(cs []Chunk, encs []byte) []*filer_pb.FileChunk {
+	var out []*filer_pb.FileChunk
+	for i, c := range cs {
+		out = append(out, PbChunkEnc(c, encAt(encs, i)))
+	}
+	return out
+}
+
+// keyOfPb / encOfPb read a chunk reference WITHOUT calling GetFileIdString (which writes the string field)
+func keyOfPb(pc *filer_pb.FileChunk) uint64 {
+	if pc.FileId != "" {
+		return KeyOf(pc.FileId)
+	}
+	if pc.Fid == nil || pc.Fid.VolumeId != Vid || pc.Fid.Cookie != 1 {
+		panic("chunk without usable id")
+	}
+	return pc.Fid.FileKey
+}
+
+func encOfPb(pc *filer_pb.FileChunk) byte {
+	switch {
+	case pc.FileId != "" && pc.Fid != nil:
+		return EncBoth
+	case pc.Fid != nil:
+		return EncFid
+	}
+	return EncStr
+}
+
+// SentChunk: the decoded id and the encoding of one chunk reference of a request, as sent
+type SentChunk struct {
+	Key uint64
+	Enc byte
+}
+
+func sentOf(pcs []*filer_pb.FileChunk) []SentChunk {
+	out := []SentChunk{}
+	for _, pc := range pcs {
+		out = append(out, SentChunk{keyOfPb(pc), encOfPb(pc)})
+	}
+	return out
+}
+
+func projNoTouch(pc *filer_pb.FileChunk) Chunk {
+	return Chunk{Key: keyOfPb(pc), Off: pc.Offset, Size: pc.Size, Mtime: pc.Mtime, Man: pc.IsChunkManifest}
+}
+
 func ProjChunk(c *filer_pb.FileChunk) Chunk {
 	return Chunk{Key: KeyOf(c.GetFileIdString()), Off: c.Offset, Size: c.Size, Mtime: c.Mtime, Man: c.IsChunkManifest}
+}
+
+func projAll(pcs []*filer_pb.FileChunk) []Chunk {
+	var out []Chunk
+	for _, pc := range pcs {
+		out = append(out, projNoTouch(pc))
+	}
+	return out
 }
 
 func tagOf(sec int64) int64 {
@@ -112,7 +196,9 @@ func tagOf(sec int64) int64 {
 	return TimeNow
 }
 
-func (e Ent) ToPb(name string) *filer_pb.Entry {
+func (e Ent) ToPb(name string) *filer_pb.Entry { return e.ToPbEnc(name, nil) }
+
+func (e Ent) ToPbEnc(name string, encs []byte) *filer_pb.Entry {
 	mode := os.FileMode(e.Perm)
 	if e.Dir {
 		mode |= os.ModeDir
@@ -123,7 +209,7 @@ func (e Ent) ToPb(name string) *filer_pb.Entry {
 		Attributes: &filer_pb.FuseAttributes{
 			Mtime: TimeBase + e.Mtime, Crtime: TimeBase + e.Crtime, FileMode: uint32(mode), Uid: e.Uid, Gid: 7,
 		},
-		Chunks:          PbChunks(e.Chunks),
+		Chunks:          PbChunksEnc(e.Chunks, encs),
 		HardLinkCounter: e.Cnt,
 	}
 	if e.Hl != 0 {
@@ -232,6 +318,10 @@ type World struct {
 	vol     *volStub
 	grpcSrv *grpc.Server
 	ml      *memListener
+
+	// the chunk references (decoded id, encoding) of the first chunk-carrying request of the last operation
+	Sent    []SentChunk
+	sentSet bool
 
 	mu        sync.Mutex
 	manifests map[uint64][]byte // needle key -> marshalled FileChunkManifest
@@ -497,6 +587,9 @@ type Op struct {
 	Ign    bool
 	Data   bool
 	NewId  byte // link: the id the mount would draw when the old name has none
+	// wire encodings (the model's operation is the DECODED request; these are a separate case input)
+	Enc    []byte // per chunk of E.Chunks / Chunks: EncBoth (default) / EncFid / EncStr
+	Listed bool   // write / link: the client took the entry from a ListEntries answer (not from LookupDirectoryEntry)
 }
 
 func DirName(p string) (string, string) {
@@ -548,8 +641,91 @@ func (w *World) lookup(p string) (*filer_pb.Entry, error) {
 	return resp.Entry, nil
 }
 
+func (w *World) noteSent(pcs []*filer_pb.FileChunk) {
+	if !w.sentSet {
+		w.Sent, w.sentSet = sentOf(pcs), true
+	}
+}
+
+// ---------- a client that lists the directory (the real ListEntries handler) ----------
+type listStream struct {
+	grpc.ServerStream
+	ctx     context.Context
+	entries []*filer_pb.Entry
+}
+
+func (s *listStream) Context() context.Context { return s.ctx }
+func (s *listStream) Send(resp *filer_pb.ListEntriesResponse) error {
+	// what the client receives: the message after a trip over the wire
+	data, err := proto.Marshal(resp)
+	if err != nil {
+		return err
+	}
+	got := &filer_pb.ListEntriesResponse{}
+	if err := proto.Unmarshal(data, got); err != nil {
+		return err
+	}
+	s.entries = append(s.entries, got.Entry)
+	return nil
+}
+
+func (w *World) listed(p string) *filer_pb.Entry {
+	d, n := DirName(p)
+	st := &listStream{ctx: w.ctx}
+	if err := w.FS.ListEntries(&filer_pb.ListEntriesRequest{Directory: d, StartFromFileName: n, InclusiveStartFrom: true, Limit: 1}, st); err != nil {
+		panic(err)
+	}
+	for _, e := range st.entries {
+		if e.Name == n {
+			return e
+		}
+	}
+	return nil
+}
+
+// fetch: the entry a client works on.  listed = false: the LookupDirectoryEntry answer.  listed = true: the
+// ListEntries answer for that name; a native listing shows the per-name blob of a hard-linked name (stale
+// attributes and chunks), so for a name that carries a link id the client resolves it by a lookup, as the
+// mount does.  asListed: the chunk objects of the listing by decoded id (they replace retained chunks).
+func (w *World) fetch(p string, listed bool) (entry *filer_pb.Entry, asListed map[uint64]*filer_pb.FileChunk, err error) {
+	entry, err = w.lookup(p)
+	if err != nil || !listed {
+		return
+	}
+	le := w.listed(p)
+	if le == nil {
+		panic("listing does not show " + p)
+	}
+	asListed = map[uint64]*filer_pb.FileChunk{}
+	for _, pc := range le.Chunks {
+		asListed[keyOfPb(pc)] = pc
+	}
+	if len(le.HardLinkId) == 0 {
+		a, b := ProjPb(proto.Clone(le).(*filer_pb.Entry)), ProjPb(proto.Clone(entry).(*filer_pb.Entry))
+		if fmt.Sprint(a) != fmt.Sprint(b) {
+			panic(fmt.Sprintf("listing and lookup differ for %s: %v / %v", p, a, b))
+		}
+		entry = le
+	}
+	return
+}
+
+// chunk list of a request: a retained chunk is sent as the listing showed it, the others as the op says
+func buildChunks(cs []Chunk, encs []byte, asListed map[uint64]*filer_pb.FileChunk) []*filer_pb.FileChunk {
+	var out []*filer_pb.FileChunk
+	for i, c := range cs {
+		if pc, ok := asListed[c.Key]; ok && projNoTouch(pc) == c {
+			out = append(out, proto.Clone(pc).(*filer_pb.FileChunk))
+			continue
+		}
+		out = append(out, PbChunkEnc(c, encAt(encs, i)))
+	}
+	return out
+}
+
 func (w *World) create(p string, pe *filer_pb.Entry, excl bool) string {
 	d, _ := DirName(p)
+	w.noteSent(pe.Chunks)
 	resp, err := w.FS.CreateEntry(w.ctx, &filer_pb.CreateEntryRequest{Directory: d, Entry: pe, OExcl: excl})
 	if err != nil {
 		return classify(err)
@@ -559,6 +735,7 @@ func (w *World) create(p string, pe *filer_pb.Entry, excl bool) string {
 
 func (w *World) update(p string, pe *filer_pb.Entry) string {
 	d, _ := DirName(p)
+	w.noteSent(pe.Chunks)
 	_, err := w.FS.UpdateEntry(w.ctx, &filer_pb.UpdateEntryRequest{Directory: d, Entry: pe})
 	return classify(err)
 }
@@ -574,16 +751,19 @@ func (w *World) remove(p string, rec, ign, data bool) string {
 
 // Apply runs one operation on the real code and returns the error class.
 func (w *World) Apply(o Op) string {
+	w.Sent, w.sentSet = []SentChunk{}, false
 	switch o.Kind {
 	case OpCreate:
 		_, n := DirName(o.Path)
-		return w.create(o.Path, o.E.ToPb(n), o.Excl)
+		return w.create(o.Path, o.E.ToPbEnc(n, o.Enc), o.Excl)
 	case OpUpdate:
 		_, n := DirName(o.Path)
-		return w.update(o.Path, o.E.ToPb(n))
+		return w.update(o.Path, o.E.ToPbEnc(n, o.Enc))
 	case OpAppend:
 		d, n := DirName(o.Path)
-		_, err := w.FS.AppendToEntry(w.ctx, &filer_pb.AppendToEntryRequest{Directory: d, EntryName: n, Chunks: PbChunks(o.Chunks)})
+		pcs := PbChunksEnc(o.Chunks, o.Enc)
+		w.noteSent(pcs)
+		_, err := w.FS.AppendToEntry(w.ctx, &filer_pb.AppendToEntryRequest{Directory: d, EntryName: n, Chunks: pcs})
 		return classify(err)
 	case OpDelete:
 		return w.remove(o.Path, o.Rec, o.Ign, o.Data)
@@ -603,9 +783,12 @@ func (w *World) Apply(o Op) string {
 		}
 	case OpLink:
 		// weed/filesys/dir_link.go, Dir.Link
-		oldEntry, err := w.lookup(o.Path)
+		oldEntry, asListed, err := w.fetch(o.Path, o.Listed)
 		if err != nil {
 			return classify(err)
+		}
+		if o.Listed {
+			oldEntry.Chunks = buildChunks(projAll(oldEntry.Chunks), nil, asListed)
 		}
 		if len(oldEntry.HardLinkId) == 0 {
 			oldEntry.HardLinkId = []byte{o.NewId}
@@ -626,11 +809,11 @@ func (w *World) Apply(o Op) string {
 			HardLinkCounter: oldEntry.HardLinkCounter,
 		}, false)
 	case OpWrite:
-		entry, err := w.lookup(o.Path)
+		entry, asListed, err := w.fetch(o.Path, o.Listed)
 		if err != nil {
 			return classify(err)
 		}
-		entry.Chunks = PbChunks(o.Chunks)
+		entry.Chunks = buildChunks(o.Chunks, o.Enc, asListed)
 		entry.Attributes.Mtime = TimeBase + o.Mtime
 		if o.Via {
 			return w.create(o.Path, entry, false)
